@@ -107,21 +107,22 @@ def generate():
     body = re.search(r"mod_magic\[\]\s*=\s*\{(.*?)\};", src["mod_load.c"], re.S)
     magics = []
     if body:
-        for mg, ch in re.findall(r'\{\s*"([^"]{4})"\s*,\s*\d+\s*,\s*\w+\s*,\s*(\d+)\s*\}', body.group(1)):
-            magics.append((mg, int(ch)))
+        for mg, fl, ch in re.findall(r'\{\s*"([^"]{4})"\s*,\s*(\d+)\s*,\s*\w+\s*,\s*(\d+)\s*\}', body.group(1)):
+            magics.append((mg, int(fl), int(ch)))
     if not magics:
         stale.append("modMagic")
-        old = re.search(r"def modMagic : List \(List Nat × Nat\) := \[(.*?)\]\n", open(OUT).read(), re.S) if os.path.exists(OUT) else None
+        old = re.search(r"def modMagic : List \(List Nat × Nat × Nat\) := \[(.*?)\]\n", open(OUT).read(), re.S) if os.path.exists(OUT) else None
         magic_txt = old.group(1) if old else ""
     else:
-        magic_txt = ",\n".join("  ([%s], %d)" % (", ".join(str(ord(c)) for c in mg), ch) for mg, ch in magics)
+        magic_txt = ",\n".join("  ([%s], %d, %d)" % (", ".join(str(ord(c)) for c in mg), fl, ch) for mg, fl, ch in magics)
     lines = ["/-! GENERATED by tools/c03_gen_hdr.py from /repo (src/loaders/{mod,s3m,xm,it}_load.c, common.c).",
              "Header-count limits of the four core loaders.  Do not edit: regenerated on every run of the C03 check. -/",
              "namespace Xmp.Gen.C03Hdr", ""]
     for k in LIMITS:
         lines.append("def %s : Nat := %d" % (k, vals[k]))
-    lines += ["", "/-- `mod_magic[]`: magic bytes at offset 1080 and the channel count they stand for -/",
-              "def modMagic : List (List Nat × Nat) := [", magic_txt, "]", "", "end Xmp.Gen.C03Hdr", ""]
+    lines += ["", "/-- `mod_magic[]`: magic bytes at offset 1080, the `flag` (tracker known for sure: no further",
+              "identification from header details) and the channel count they stand for -/",
+              "def modMagic : List (List Nat × Nat × Nat) := [", magic_txt, "]", "", "end Xmp.Gen.C03Hdr", ""]
     changed = vlib.write_if_changed(OUT, "\n".join(lines))
     return {"values": vals, "stale": stale, "changed": changed, "magics": len(magics)}
 
